@@ -357,7 +357,11 @@ func endlessScript(rt *rapid.T, fault string) (string, string) {
 	case "function-in-loop":
 		return pre + "function spin(a) { " + loop() + " return a; }\nforeach q in 1..3 { if (q > 0) { spin(q); } }", shape
 	case "recursion-with-loop":
-		return pre + "function r(n) { if (n <= 0) { " + loop() + " } return r(n - 1); }\nr(" + fmt.Sprint(rapid.SampledFrom([]int{0, 1, 2, 7, 50, 50, 3000, 9000, 9500}).Draw(rt, "rdepth")) + ");", shape
+		// (the name of the function is the author's to choose: one letter, or a
+		// few hundred - what a failing call costs to report must not grow with
+		// the depth times the name)
+		rn := rapid.SampledFrom([]string{"r", "r", "recurse_" + strings.Repeat("deeper_and_", 55)}).Draw(rt, "rname")
+		return pre + "function " + rn + "(n) { if (n <= 0) { " + loop() + " } return " + rn + "(n - 1); }\n" + rn + "(" + fmt.Sprint(rapid.SampledFrom([]int{0, 1, 2, 7, 50, 50, 3000, 9000, 9500}).Draw(rt, "rdepth")) + ");", shape
 	case "branching-recursion":
 		// no loop anywhere: 2^n calls at a call depth of only n
 		n := rapid.IntRange(40, 70).Draw(rt, "burn")
